@@ -50,4 +50,140 @@ theorem c22_constants_tie :
 theorem c22_limits_consistent :
     WK.Gen.C22.maxRemainingLength < 268435456 ∧ WK.Gen.C22.payloadMaxSize = maxInt16 := by decide
 
+open WK.Gen.C22
+
+/-- close an encoder-layout goal after unfolding (instances of the same guard may differ) -/
+macro "enc_close" : tactic => `(tactic| (first | done | rfl | congr))
+
+/-- close a size-layout goal after unfolding: split the guards, then arithmetic -/
+macro "size_close" : tactic => `(tactic| (
+  try (repeat' split)
+  all_goals (first | omega | (simp [*]; try omega))))
+
+/-! ## field order: the model's encoder and size function of every frame type are the
+    interpretation of the write / size-term list extracted from the current Go source, and
+    the Go decoder reads the same fields, in the same order, under the same guards. -/
+
+theorem c22_field_order_connect (p : Connect) :
+    encConnect p = interpEnc ⟨0, false, p.val⟩ enc_connect ∧
+    sizeConnect p = interpSize ⟨0, false, p.val⟩ size_connect ∧
+    dec_connect = enc_connect := by
+  refine ⟨?_, ?_, by decide⟩
+  · simp [encConnect, interpEnc, enc_connect, evalGuard, evalAtom, writeItem, Connect.val, Val.nat, Val.byt, wIf, and_assoc]
+    enc_close
+  · simp [sizeConnect, interpSize, size_connect, evalGuard, evalAtom, sizeItem, Connect.val, Val.nat, Val.byt, and_assoc]
+    size_close
+
+theorem c22_field_order_connack (v : Nat) (h : Flags) (p : Connack) :
+    encConnack v h p = interpEnc ⟨v, h.hsv, p.val⟩ enc_connack ∧
+    sizeConnack v h p = interpSize ⟨v, h.hsv, p.val⟩ size_connack ∧
+    dec_connack = enc_connack := by
+  refine ⟨?_, ?_, by decide⟩
+  · simp [encConnack, interpEnc, enc_connack, evalGuard, evalAtom, writeItem, Connack.val, Val.nat, Val.byt, wIf, and_assoc]
+    enc_close
+  · simp [sizeConnack, interpSize, size_connack, evalGuard, evalAtom, sizeItem, Connack.val, Val.nat, Val.byt, and_assoc]
+    size_close
+
+theorem c22_field_order_send (v : Nat) (p : Send) :
+    encSend v p = interpEnc ⟨v, false, p.val⟩ enc_send ∧
+    sizeSend v p = interpSize ⟨v, false, p.val⟩ size_send ∧
+    dec_send = enc_send := by
+  refine ⟨?_, ?_, by decide⟩
+  · simp [encSend, interpEnc, enc_send, evalGuard, evalAtom, writeItem, Send.val, Val.nat, Val.byt, wIf, streamOn, topicOn, and_assoc]
+    enc_close
+  · simp [sizeSend, interpSize, size_send, evalGuard, evalAtom, sizeItem, Send.val, Val.nat, Val.byt, streamOn, topicOn, and_assoc]
+    size_close
+
+theorem c22_field_order_sendack (v : Nat) (p : Sendack) :
+    encSendack v p = interpEnc ⟨v, false, p.val⟩ enc_sendack ∧
+    sizeSendack v p = interpSize ⟨v, false, p.val⟩ size_sendack ∧
+    dec_sendack = [⟨.u64, "MessageID", []⟩, ⟨.u32, "ClientSeq", []⟩, ⟨.bytes, "Body", []⟩, ⟨.bytes, "SendackBody", []⟩] ∧
+    dec_sendack_core_first =
+      [⟨.seq, "MessageSeq", []⟩, ⟨.u8, "ReasonCode", []⟩, ⟨.str, "ClientMsgNo", [.lenPos]⟩, ⟨.bytes, "END", []⟩] ∧
+    dec_sendack_msgno_first =
+      [⟨.str, "ClientMsgNo", []⟩, ⟨.seq, "MessageSeq", []⟩, ⟨.u8, "ReasonCode", []⟩, ⟨.bytes, "END", []⟩] := by
+  refine ⟨?_, ?_, by decide, by decide, by decide⟩
+  · simp [encSendack, interpEnc, enc_sendack, evalGuard, evalAtom, writeItem, Sendack.val, Val.nat, Val.byt, wIf, and_assoc]
+    enc_close
+  · simp [sizeSendack, interpSize, size_sendack, evalGuard, evalAtom, sizeItem, Sendack.val, Val.nat, Val.byt, and_assoc]
+    size_close
+
+theorem c22_field_order_recv (v : Nat) (p : Recv) :
+    encRecv v p = interpEnc ⟨v, false, p.val⟩ enc_recv ∧
+    sizeRecv v p = interpSize ⟨v, false, p.val⟩ size_recv ∧
+    dec_recv = enc_recv := by
+  refine ⟨?_, ?_, by decide⟩
+  · by_cases hc : (v < 5 ∧ 2 ≤ v ∧ isSet p.setting settingStream = true) <;>
+      simp [encRecv, interpEnc, enc_recv, evalGuard, evalAtom, writeItem, Recv.val, Val.nat, Val.byt, wIf, streamOn,
+        topicOn, and_assoc, hc] <;> enc_close
+  · simp [sizeRecv, interpSize, size_recv, evalGuard, evalAtom, sizeItem, Recv.val, Val.nat, Val.byt, streamOn, topicOn, and_assoc]
+    size_close
+
+theorem c22_field_order_recvack (v : Nat) (p : Recvack) :
+    encRecvack v p = interpEnc ⟨v, false, p.val⟩ enc_recvack ∧
+    sizeRecvack v = interpSize ⟨v, false, p.val⟩ size_recvack ∧
+    dec_recvack = enc_recvack := by
+  refine ⟨?_, ?_, by decide⟩
+  · simp [encRecvack, interpEnc, enc_recvack, evalGuard, evalAtom, writeItem, Recvack.val, Val.nat, Val.byt, wIf, and_assoc]
+    enc_close
+  · simp [sizeRecvack, interpSize, size_recvack, evalGuard, evalAtom, sizeItem, Recvack.val, Val.nat, Val.byt, and_assoc]
+    size_close
+
+theorem c22_field_order_disconnect (p : Disconnect) :
+    encDisconnect p = interpEnc ⟨0, false, p.val⟩ enc_disconnect ∧
+    sizeDisconnect p = interpSize ⟨0, false, p.val⟩ size_disconnect ∧
+    dec_disconnect = enc_disconnect := by
+  refine ⟨?_, ?_, by decide⟩
+  · simp [encDisconnect, interpEnc, enc_disconnect, evalGuard, evalAtom, writeItem, Disconnect.val, Val.nat, Val.byt, wIf, and_assoc]
+    enc_close
+  · simp [sizeDisconnect, interpSize, size_disconnect, evalGuard, evalAtom, sizeItem, Disconnect.val, Val.nat, Val.byt, and_assoc]
+    size_close
+
+theorem c22_field_order_sub (p : Sub) :
+    encSub p = interpEnc ⟨0, false, p.val⟩ enc_sub ∧
+    sizeSub p = interpSize ⟨0, false, p.val⟩ size_sub ∧
+    dec_sub = enc_sub := by
+  refine ⟨?_, ?_, by decide⟩
+  · simp [encSub, interpEnc, enc_sub, evalGuard, evalAtom, writeItem, Sub.val, Val.nat, Val.byt, wIf, and_assoc]
+    enc_close
+  · simp [sizeSub, interpSize, size_sub, evalGuard, evalAtom, sizeItem, Sub.val, Val.nat, Val.byt, and_assoc]
+    size_close
+
+theorem c22_field_order_suback (p : Suback) :
+    encSuback p = interpEnc ⟨0, false, p.val⟩ enc_suback ∧
+    sizeSuback p = interpSize ⟨0, false, p.val⟩ size_suback ∧
+    dec_suback = enc_suback := by
+  refine ⟨?_, ?_, by decide⟩
+  · simp [encSuback, interpEnc, enc_suback, evalGuard, evalAtom, writeItem, Suback.val, Val.nat, Val.byt, wIf, and_assoc]
+    enc_close
+  · simp [sizeSuback, interpSize, size_suback, evalGuard, evalAtom, sizeItem, Suback.val, Val.nat, Val.byt, and_assoc]
+    size_close
+
+theorem c22_field_order_event (p : Event) :
+    encEvent p = interpEnc ⟨0, false, p.val⟩ enc_event ∧
+    sizeEvent p = interpSize ⟨0, false, p.val⟩ size_event ∧
+    dec_event = enc_event := by
+  refine ⟨?_, ?_, by decide⟩
+  · simp [encEvent, interpEnc, enc_event, evalGuard, evalAtom, writeItem, Event.val, Val.nat, Val.byt, wIf, and_assoc]
+    enc_close
+  · simp [sizeEvent, interpSize, size_event, evalGuard, evalAtom, sizeItem, Event.val, Val.nat, Val.byt, and_assoc]
+    size_close
+
+/-- the loop shape of decodeLength / encodeVariable2 in the source is the one the model runs -/
+theorem c22_varint_shape :
+    decodeLengthBound = 27 ∧ decodeLengthStep = 7 ∧ varintBase = 128 ∧
+    (∀ data, decLen data = decLenF ((decodeLengthBound + decodeLengthStep - 1) / decodeLengthStep) 0 0 0 data) ∧
+    messageSeqGuardUniform = true := by
+  refine ⟨rfl, rfl, rfl, fun _ => rfl, rfl⟩
+
+
+/-- non-vacuity: the extracted lists are the real ones (10 SEND writes, 5 guarded RECV writes,
+    the legacy stream fields under `version < 5 ∧ version ≥ 2 ∧ stream`) -/
+example : enc_send.length = 10 ∧ (enc_recv.filter (fun it => it.guard ≠ [])).length = 5 ∧
+    enc_recv.contains ⟨.u64, "StreamId", [.vLt 5, .vGe 2, .stream]⟩ ∧
+    size_recv.contains ⟨.u32, "Expire", [.vGe 3]⟩ := by decide
+
+example : interpEnc ⟨4, false, (Send.mk 10 7 [1] [2] [3] 2 9 [] [4, 5] [6, 7, 8]).val⟩ enc_send =
+    encSend 4 (Send.mk 10 7 [1] [2] [3] 2 9 [] [4, 5] [6, 7, 8]) := by decide
+
 end WK.C22
